@@ -22,5 +22,27 @@ CHECKS = {
     ),
 }
 
+RND = "0chain.net/chaincore/round"
+CHECKS["C37"] = dict(
+    level="exploration", engine="E2",
+    technique="stateful property-based testing (rapid state machine vs reference model, per-operation watchdog); generated concurrent programs under -race",
+    level_text="Generated histories of round operations are executed on the real Round with every call under a watchdog and compared with a reference model of phase / finalizing state / timeout count / share set; concurrent programs run under the race detector. Exploration of sequences and sampled interleavings.",
+    level_note="Trusts the reference model; deadlock detection is by a 20 s watchdog on operations that take microseconds; interleavings are sampled by the Go scheduler, not enumerated.",
+    parts=[
+        dict(pkg=RND, run="^TestC37_Sequential$", quick=3000, thorough=160000, steps=30, floor=50),
+        dict(pkg=RND, run="^TestC37_Concurrent$", race=True, quick=300, thorough=16000),
+    ],
+)
+CHECKS["C35"] = dict(
+    level="exploration", engine="E2",
+    technique="stateful property-based testing against a rank->block reference map; metamorphic test over insertion orders of the miner pool",
+    level_text="Generated add/update histories over a real Round are checked against a reference map (one block per rank, heaviest first, update replaces the object); miner pools built in two generated insertion orders must give identical rank permutations.",
+    level_note="Trusts the reference model; miner keys are derived BLS keys, seeds are drawn.",
+    parts=[
+        dict(pkg=RND, run="^TestC35_NotarizedBlocks$", quick=3000, thorough=160000, steps=30, floor=50),
+        dict(pkg=RND, run="^TestC35_Ranking$", quick=1500, thorough=80000, floor=20),
+    ],
+)
+
 # properties not claimed (reason shown in MANIFEST.not_applicable)
 PENDING = {}
